@@ -107,11 +107,18 @@ Definition dir_handle_ok (s : mst) (i : nat) : bool :=
               | None => false
               end
   end.
+(* a handle refers to an allocated node (true in every reachable state) *)
+Definition any_handle_ok (s : mst) (i : nat) : bool :=
+  match nth_error (mhandles s) i with
+  | None => true
+  | Some h => match get_node s (href h) with Some _ => true | None => false end
+  end.
 Definition wf_op_sim (s : mst) (o : op) : bool :=
   wf_op s o &&
   match o with
   | HRead i _ | HReadAt i _ _ | HWrite i _ | HWriteAt i _ _ | HWriteString i _ | HSeek i _ _ | HTruncate i _ => file_handle_ok s i
   | HReaddir i _ | HReaddirnames i _ => dir_handle_ok s i
+  | HClose i | HStat i | HSync i | HName i => any_handle_ok s i
   | _ => true
   end.
 Fixpoint wf_seq_sim (s : mst) (ops : list op) : bool :=
